@@ -29,6 +29,8 @@ class SimThread:
         self.result = None
         self.blocked_on = None
         self.steps = 0
+        self.lsteps = 0           # traced lines executed (policy "delay")
+        self.nlocks = 0           # simulated locks held
         self.th = _th.Thread(target=self._main, name=name, daemon=True)
 
     def _main(self):
@@ -94,6 +96,17 @@ class Sched:
             self.line_p = 1.0     # every traced line is a (potential) priority change point
             self.q_line = policy.get("q", 0.004)
             self.q_op = policy.get("q_op", 0.05)
+        # "delay": systematic single-delay exploration.  The schedule is the seeded "ops"
+        # schedule, except that thread `thread` is parked when it reaches its `step`-th
+        # traced source line and stays parked until nobody else can make progress any
+        # more (all others finished or blocked with no timer pending): the longest
+        # delay a pre-empted thread can suffer at that point.
+        self.delay = self.mode == "delay"
+        if self.delay:
+            self.line_p = 1.0
+            self.d_thread = policy.get("thread")
+            self.d_step = policy.get("step", -1)
+            self.record = [] if policy.get("record") else None
         self.low = 0.0
         self.in_hook = False
         self.on_quiescent = None
@@ -148,7 +161,9 @@ class Sched:
             q = self.on_quiescent
             due_now = any(t.state == "B" and t.wait_token == tok and when <= w.now
                           for when, _, t, tok in self.timers)
-            if q is not None and not self.in_hook and not due_now:
+            parked = [t for t in self.threads if t.state == "P"]
+            # with a parked thread the instant is not quiescent: that thread could run
+            if q is not None and not self.in_hook and not due_now and not parked:
                 self.in_hook = True
                 try:
                     q()
@@ -164,6 +179,11 @@ class Sched:
                     t.wait_token = None
                     break
             else:
+                if parked:
+                    for t in parked:
+                        t.state = "R"
+                        w.log("unpark", t.name)
+                    continue
                 return None
 
     def _handoff(self, me):
@@ -208,6 +228,19 @@ class Sched:
         me = self.cur
         if self.timers and self.timers[0][0] <= self.world.now:
             self._release_due()
+        if self.delay and frame is not None:
+            me.lsteps += 1
+            if self.record is not None:
+                self.record.append((me.name, me.lsteps, frame.f_code.co_filename.rsplit("/", 1)[-1],
+                                    frame.f_lineno, me.nlocks))
+            if me.lsteps == self.d_step and me.name == self.d_thread and len(self.threads) > 1:
+                me.state = "P"
+                self.world.stats["sched:parked"] += 1
+                self.world.log("park", me.name, frame.f_code.co_filename.rsplit("/", 1)[-1],
+                               frame.f_code.co_name)
+                me.steps += 1
+                self._handoff(me)
+            return
         if self.pct:
             if len(self.threads) < 2:
                 return
@@ -350,10 +383,13 @@ class SLock:
             s.world.probes["lock_contended"] += 1
             s.block(None, on=("lock", s.ctx_site()))
         self.owner = me
+        me.nlocks += 1
         return True
 
     def release(self):
         s = _SCHED
+        if self.owner is not None:
+            self.owner.nlocks -= 1
         self.owner = None
         if self.waiters:
             # real locks are unfair: wake a random waiter
